@@ -131,7 +131,10 @@ impl Language for Scala {
             writeln!(w, " */")?;
         }
         if self.package.is_empty() {
-            panic!("package name must be provided")
+            return Err(std::io::Error::new(
+                std::io::ErrorKind::InvalidInput,
+                "a package name must be provided for Scala (--scala-package or scala.package in typeshare.toml)",
+            ));
         }
         match self.package.rsplit_once('.') {
             None => {}
